@@ -22,7 +22,9 @@ CONSTANTS NTasks, N, MaxOps, Labels, Levels, Bug,
 
 Tasks == 1..NTasks
 S == 1..N
-Texts == {"noargs", "args", "pct_noargs", "mapping"}   \* mapping: "%(name)s" with a single dict argument
+Texts == {"noargs", "args", "pct_noargs", "mapping", "tmpl_noargs"}   \* mapping: "%(name)s" with a single dict argument
+(* "tmpl_noargs": the very text of "args" ("value %s and %d") logged WITHOUT arguments - it comes out as it is; the same
+   text is logged with and without arguments in one scope, in either order *)
 
 VARIABLES par,     \* [S -> 0..N]
           phase,   \* [S -> "new" | "made" | "entered" | "finished"]
